@@ -7,6 +7,8 @@
 (*   'l2'          : smallest Euclidean norm                   (QP)           *)
 (*   'var'         : smallest variance across sources          (QP)           *)
 (*   vector x0     : intensities closest to x0                 (QP)           *)
+(*   (opt, idcs)   : the objective restricted to the sources idcs; modelled    *)
+(*                   for 'min' / 'max' with idcs = the first two sources       *)
 EXTENDS LsqLinear
 
 IdN(n) == Identity(n)
@@ -24,6 +26,7 @@ UnderRecord(s, b, x0, v) ==
       vc == QPEq(IdN(n), VScale(-1, x0), M, r, s.lb, s.ub)
   IN [b |-> b, nverts |-> Cardinality(V),
       minsum |-> SumOf(mn), maxsum |-> SumOf(mx),
+      minsub |-> MinSubSum(V, {1, 2}), maxsub |-> MaxSubSum(V, {1, 2}),
       xmin |-> mn, xmax |-> mx,
       (* total intensity closest to v (v in the units of x): clamp *)
       numsum |-> IF RLt(RInt(v), SumOf(mn)) THEN SumOf(mn) ELSE IF RLt(SumOf(mx), RInt(v)) THEN SumOf(mx) ELSE RInt(v),
